@@ -65,8 +65,14 @@ fn render_layout(toks: &[Tok], enders: &[String], rng: &mut Rng) -> String {
         if t.kind == "SoftSemi" {
             // a statement terminator: newline or ';' (a newline here is a terminator only because the previous token is an ender)
             let prev_is_ender = i > 0 && enders.contains(&toks[i - 1].kind);
+            // a statement may stand directly before the closing brace of its block or the end of the input
+            let next_closes = toks[i + 1..].iter().find(|t| t.kind != "SoftSemi").map(|t| t.kind == "RightBrace" || t.kind == "Eof").unwrap_or(true);
+            if next_closes && i > 0 && toks[i - 1].kind != "SoftSemi" && rng.chance(1, 3) {
+                s.push(' ');
+                continue;
+            }
             if prev_is_ender && t.lexeme == "\n" || (prev_is_ender && rng.chance(1, 2)) {
-                s.push_str(["\n", "\n", " \n", "\r\n", " // c\n", "\n\n  \n", "\n// é\n", " // path C:\\tmp\\\n", " //\n", "\n// \"quoted\" // nested \\\n"][rng.below(10)]);
+                s.push_str(["\n", "\n", " \n", "\r\n", " // c\n", "\n\n  \n", "\n// é\n", " // path C:\\tmp\\\n", " //\n", "\n// \"quoted\" // nested \\\n", " \\\n\n", " \\\n  \t\n", "\\\n\r\n", " \\\n \\\n\n"][rng.below(14)]);
             } else {
                 s.push_str([";", " ;", "; ", ";\n", " ; // c\n"][rng.below(5)]);
             }
@@ -120,6 +126,18 @@ pub fn c06(ctx: &Ctx) -> PropResult {
         g.allow_errors = false;
         let k = 1 + g.rng.below(5);
         programs.push(g.program(k));
+    }
+    // every kind of simple statement as the last statement of a block and of the program (its terminator is optional there)
+    for last in ["DISPLAY(1)", "x <- 2", "IMPORT MOD \"MATH\"", "IMPORT \"SIN\" FROM MOD \"MATH\"", "IMPORT [\"SIN\", \"COS\"] FROM MOD \"MATH\"", "BREAK", "CONTINUE", "RETURN", "RETURN 5", "l[1] <- 3", "f(1)"] {
+        let in_loop = last == "BREAK" || last == "CONTINUE";
+        let in_proc = last.starts_with("RETURN");
+        let block = if in_loop { format!("REPEAT 2 TIMES {{\nDISPLAY(\"it\")\n{last}\n}}\n") } else if in_proc { format!("PROCEDURE g() {{\nDISPLAY(\"in g\")\n{last}\n}}\nDISPLAY(g())\n") } else { format!("{{\nDISPLAY(\"blk\")\n{last}\n}}\nIF (TRUE) {{\n{last}\n}}\n") };
+        for _ in 0..3 {
+            programs.push(format!("l <- [1, 2]\nPROCEDURE f(a) {{\nRETURN a\n}}\n{block}DISPLAY(\"end\")\n"));
+        }
+        if !in_loop && !in_proc {
+            programs.push(format!("l <- [1, 2]\nPROCEDURE f(a) {{\nRETURN a\n}}\nDISPLAY(\"start\")\n{last}\n"));
+        }
     }
     let per = if ctx.quick() { 6 } else { 20 };
     let mut cases = vec![];
@@ -183,6 +201,12 @@ pub fn c06(ctx: &Ctx) -> PropResult {
                         out.push(("SoftSemi".into(), String::new(), String::new()));
                     } else if t.kind == "Eof" {
                         continue;
+                    } else if t.kind == "RightBrace" {
+                        // a terminator directly before `}` is optional
+                        while out.last().map(|l| l.0 == "SoftSemi").unwrap_or(false) {
+                            out.pop();
+                        }
+                        out.push((t.kind, t.lexeme, t.lit));
                     } else if is_keyword(&t.kind) {
                         out.push((t.kind, t.lexeme.to_uppercase(), t.lit));
                     } else {
